@@ -38,7 +38,7 @@ type kind struct {
 func kindsFor(n int, thorough bool) []kind {
 	// outside(root): like outside(rel), but the path it would reach is named "root/x" (a directory
 	// that exists in the image) instead of "x"
-	ks := []kind{{K: "file"}, {K: "dir"}, {K: "missing"}, {K: "deleted"}, {K: "outside"}, {K: "outside", Spell: "abs"}, {K: "outside", Spell: "root"}}
+	ks := []kind{{K: "file"}, {K: "dir"}, {K: "missing"}, {K: "deleted"}, {K: "outside"}, {K: "outside", Spell: "abs"}, {K: "outside", Spell: "root"}, {K: "root", Spell: "abs"}, {K: "root", Spell: "rel"}}
 	for j := 0; j < n; j++ {
 		if n > 1 && (n <= 3 || thorough) {
 			// a link whose target goes THROUGH entry j ("e<j>/child"): entry j may itself be a link
@@ -80,6 +80,12 @@ func build(g []kind) [][]byte {
 		case "deleted":
 			l0 = append(l0, imgkit.File(name(i), "content-of-"+name(i)))
 			l1 = append(l1, imgkit.Whiteout(name(i)))
+		case "root":
+			t := "/"
+			if k.Spell == "rel" {
+				t = ".."
+			}
+			l0 = append(l0, imgkit.Sym(name(i), t))
 		case "via":
 			l0 = append(l0, imgkit.Sym(name(i), base(k.To)+"/child"))
 		case "relink":
@@ -142,6 +148,12 @@ func resolve(g []kind, i, max, view int) expect {
 				return expect{"ok-" + k.K, cur, hops}
 			}
 			return expect{"loop", cur, hops}
+		case "root":
+			// a link to the image root itself: inside the root by definition
+			if hops+1 <= max {
+				return expect{"ok-root", cur, hops + 1}
+			}
+			return expect{"loop", cur, hops + 1}
 		case "via":
 			// The target runs through another entry. Whether a view resolves links in the middle of a
 			// path is not part of the property; what is: the query terminates, and if it yields a file
@@ -181,7 +193,7 @@ func accepts(want string, got string) bool {
 	switch want {
 	case "notexist-or-loop":
 		return got == "notexist" || got == "loop"
-	case "ok-file", "ok-dir":
+	case "ok-file", "ok-dir", "ok-root":
 		return got == "ok"
 	}
 	return want == got
@@ -205,6 +217,9 @@ func graphStr(g []kind) string {
 		}
 		if k.K == "via" {
 			s = fmt.Sprintf("->e%d/child", k.To)
+		}
+		if k.K == "root" {
+			s = "->image-root(" + k.Spell + ")"
 		}
 		parts = append(parts, fmt.Sprintf("e%d:%s", i, s))
 	}
@@ -326,6 +341,14 @@ func checkGraphOrder(r *ev.Run, g []kind, depths []int, rev bool) {
 					viol("Open", "open-wrong-file", fmt.Sprintf("content %q", o.content))
 				}
 				switch want.class {
+				case "ok-root":
+					hasD := false
+					for _, n := range o.listing {
+						hasD = hasD || n == "d"
+					}
+					if o.rdC != "ok" || !hasD {
+						viol("ReadDir", "readdir-wrong", fmt.Sprintf("class %s listing %v, want the listing of the image root", o.rdC, o.listing))
+					}
 				case "ok-dir":
 					if o.rdC != "ok" || len(o.listing) != 1 || o.listing[0] != "child" {
 						viol("ReadDir", "readdir-wrong", fmt.Sprintf("class %s listing %v", o.rdC, o.listing))
@@ -349,7 +372,7 @@ func checkGraphOrder(r *ev.Run, g []kind, depths []int, rev bool) {
 
 func main() {
 	scankit.Quiet()
-	r := ev.Start("C17", "exploration", 3*time.Minute, 40*time.Minute)
+	r := ev.Start("C17", "exploration", 7*time.Minute, 45*time.Minute)
 	base, err := os.MkdirTemp("/dev/shm", "c17-")
 	if err != nil {
 		base, _ = os.MkdirTemp("", "c17-")
@@ -422,5 +445,5 @@ func main() {
 	}
 	os.RemoveAll(base)
 	r.Set("bound", map[string]any{"entries_completed": completed, "depths": depths})
-	r.Finish(fmt.Sprintf("every kind assignment to n<=%d entries (named d/e0, d/e\\1 (a backslash in the name), d/e2...; file, dir, missing, deleted by layer 1, outside-root symlink spelled relative (../../x, ../../root/x) and absolute (/d/../../x), symlink whose target runs through another entry (e<j>/child; n<=3, thorough all n), symlink to each entry spelled relative/absolute%s, symlink re-pointed by layer 1 from entry j to j+1 (n<=3; thorough all n)) x MaxSymlinkDepth 0..6 x every entry x {Stat, Open+Read, ReadDir} on all three views (layer-0 view where deleted entries still exist, intermediate view with whiteout nodes, final view) of the real image vs the per-view reference resolver, views queried 0,1,2 and, on a fresh load at depth 6, 2,1,0; each query under a 60 s watchdog; non-trivial = queries whose chain has >=1 hop", maxN, map[bool]string{true: "/with ..", false: ""}[r.Thorough()]), completed >= maxN)
+	r.Finish(fmt.Sprintf("every kind assignment to n<=%d entries (named d/e0, d/e\\1 (a backslash in the name), d/e2...; file, dir, missing, deleted by layer 1, symlink to the image root itself (/ and ..), outside-root symlink spelled relative (../../x, ../../root/x) and absolute (/d/../../x), symlink whose target runs through another entry (e<j>/child; n<=3, thorough all n), symlink to each entry spelled relative/absolute%s, symlink re-pointed by layer 1 from entry j to j+1 (n<=3; thorough all n)) x MaxSymlinkDepth 0..6 x every entry x {Stat, Open+Read, ReadDir} on all three views (layer-0 view where deleted entries still exist, intermediate view with whiteout nodes, final view) of the real image vs the per-view reference resolver, views queried 0,1,2 and, on a fresh load at depth 6, 2,1,0; each query under a 60 s watchdog; non-trivial = queries whose chain has >=1 hop", maxN, map[bool]string{true: "/with ..", false: ""}[r.Thorough()]), completed >= maxN)
 }
